@@ -61,7 +61,7 @@ func newSynGrid(tw uint, m int, x0, y0 float64, corner string, nz int) *synGrid 
 	return g
 }
 
-func (g *synGrid) levelOf(z int) int    { return z + log2u(g.TW) + 4 }
+func (g *synGrid) levelOf(z int) int     { return z + log2u(g.TW) + 4 }
 func (g *synGrid) zOf(level int) int     { return level - log2u(g.TW) - 4 }
 func (g *synGrid) pix(level int) float64 { return math.Ldexp(1, g.M-level) }
 
